@@ -50,6 +50,10 @@ func verifPlanFor(route, kind string, chunked bool, burst bool) zzverif.Plan {
 	if kind == "ok" && route == "anthropic" {
 		return zzverif.Plan{Kind: "ok", Status: 200, Chunked: chunked, Body: verifOpenAICompletion}
 	}
+	if kind == "cabort" && route == "anthropic_stream" {
+		// an OpenAI stream that keeps coming (the client walks away after the first translated bytes)
+		return zzverif.Plan{Kind: "ok", Status: 200, Chunked: true, CT: "text/event-stream", Chunks: verifStreamSSE(20000)}
+	}
 	if kind == "ok" && route == "anthropic_stream" {
 		return zzverif.Plan{Kind: "ok", Status: 200, Chunked: true, Body: verifOpenAIStream, CT: "text/event-stream"}
 	}
